@@ -4,7 +4,9 @@ import (
 	"fmt"
 	"math"
 	"reflect"
+	"sort"
 	"strconv"
+	"strings"
 
 	"github.com/ah-naf/borno/ast"
 	"github.com/ah-naf/borno/environment"
@@ -1026,5 +1028,100 @@ func stringify(value interface{}) string {
 	if valRune, ok := value.([]rune); ok {
 		return string(valRune)
 	}
+	if containsItself(value, map[uintptr]bool{}) {
+		// fmt would recurse forever on an array or object that (indirectly)
+		// contains itself; render it with "..." where it repeats
+		var out strings.Builder
+		writeCyclic(&out, value, map[uintptr]bool{})
+		return out.String()
+	}
 	return fmt.Sprintf("%v", value)
+}
+
+// containerID identifies an array or object by its storage (0 for anything else).
+func containerID(value interface{}) uintptr {
+	switch v := value.(type) {
+	case []interface{}:
+		if len(v) == 0 {
+			return 0
+		}
+		return reflect.ValueOf(v).Pointer()
+	case map[string]interface{}:
+		return reflect.ValueOf(v).Pointer()
+	}
+	return 0
+}
+
+// containsItself reports whether a container is reachable from itself.
+func containsItself(value interface{}, path map[uintptr]bool) bool {
+	id := containerID(value)
+	if id == 0 {
+		return false
+	}
+	if path[id] {
+		return true
+	}
+	path[id] = true
+	defer delete(path, id)
+	switch v := value.(type) {
+	case []interface{}:
+		for _, element := range v {
+			if containsItself(element, path) {
+				return true
+			}
+		}
+	case map[string]interface{}:
+		for _, element := range v {
+			if containsItself(element, path) {
+				return true
+			}
+		}
+	}
+	return false
+}
+
+// writeCyclic renders like fmt's %v, except that a container already being
+// rendered is shown as [...] or map[...].
+func writeCyclic(out *strings.Builder, value interface{}, path map[uintptr]bool) {
+	id := containerID(value)
+	switch v := value.(type) {
+	case []interface{}:
+		if id != 0 && path[id] {
+			out.WriteString("[...]")
+			return
+		}
+		path[id] = true
+		out.WriteString("[")
+		for i, element := range v {
+			if i > 0 {
+				out.WriteString(" ")
+			}
+			writeCyclic(out, element, path)
+		}
+		out.WriteString("]")
+		delete(path, id)
+	case map[string]interface{}:
+		if path[id] {
+			out.WriteString("map[...]")
+			return
+		}
+		path[id] = true
+		keys := make([]string, 0, len(v))
+		for key := range v {
+			keys = append(keys, key)
+		}
+		sort.Strings(keys)
+		out.WriteString("map[")
+		for i, key := range keys {
+			if i > 0 {
+				out.WriteString(" ")
+			}
+			out.WriteString(key + ":")
+			writeCyclic(out, v[key], path)
+		}
+		out.WriteString("]")
+		delete(path, id)
+	default:
+		out.WriteString(fmt.Sprintf("%v", value))
+	}
 }
